@@ -678,3 +678,248 @@ Section DFSProofs.
     Proof. intros Hac x. apply height_bound. exact Hac. Qed.
   End Fuel.
 End DFSProofs.
+
+(* ================================================================== C10: undo, atomicity, history *)
+
+Lemma msorted_map_snd {V W} (g : name * V -> W) (m : fmap V) :
+  msorted (map (fun p => (fst p, g p)) m) <-> msorted m.
+Proof.
+  induction m as [|[k v] m IH]; simpl; [tauto|].
+  destruct m as [|[k2 v2] m']; simpl in *; tauto.
+Qed.
+
+Lemma sources_sorted m : msorted (sources m) <-> msorted m.
+Proof. unfold sources. apply msorted_map_snd. Qed.
+
+Lemma sources_minsert n e m : sources (minsert n e m) = minsert n (e_desc e) (sources m).
+Proof.
+  induction m as [|[k v] m IH]; simpl; auto.
+  destruct (name_cmp n k); simpl; auto. rewrite IH. reflexivity.
+Qed.
+
+Lemma undo_snoc log kp m : undo (log ++ [kp]) m = undo log (undo_one m kp).
+Proof. unfold undo. rewrite rev_app_distr. reflexivity. Qed.
+
+Lemma undo_one_insert n e m :
+  msorted m -> undo_one (minsert n e m) (n, mfind n m) = m.
+Proof.
+  intros Hs. unfold undo_one. simpl. destruct (mfind n m) as [old|] eqn:E.
+  - apply minsert_minsert; auto.
+  - apply mremove_minsert; auto.
+Qed.
+
+Lemma insert_all_undo b : forall m log ok m1 log1,
+  msorted m -> insert_all m b log = (ok, m1, log1) ->
+  undo log1 m1 = undo log m /\ msorted m1.
+Proof.
+  induction b as [|[n [t|]] b IH]; intros m log ok m1 log1 Hs H; simpl in H.
+  - injection H as <- <- <-. auto.
+  - apply IH in H; [|apply minsert_sorted; auto]. destruct H as [H1 H2]. split; auto.
+    rewrite H1, undo_snoc, undo_one_insert; auto.
+  - injection H as <- <- <-. auto.
+Qed.
+
+(* inserting a batch (duplicates allowed, possibly cut short by a syntax error) while recording
+   the previous entries, then undoing in reverse, gives back the map *)
+Theorem undo_restores m b ok m1 log :
+  msorted m -> insert_all m b [] = (ok, m1, log) -> undo log m1 = m.
+Proof. intros Hs H. apply insert_all_undo in H; auto. destruct H as [H _]. exact H. Qed.
+
+Lemma with_tpls_same s : with_tpls s (st_tpls s) = s.
+Proof. destruct s; reflexivity. Qed.
+
+Theorem add_err_is_identity ev s b e s' :
+  msorted (st_tpls s) -> add_batch ev s b = (Err e, s') -> s' = s.
+Proof.
+  intros Hs H. unfold add_batch in H.
+  destruct (insert_all (st_tpls s) b []) as [[ok m1] log] eqn:E.
+  pose proof (undo_restores _ _ _ _ _ Hs E) as Hu.
+  destruct ok.
+  - destruct (finalize ev (with_tpls s m1)) eqn:F; [discriminate|].
+    injection H as _ <-. rewrite Hu. apply with_tpls_same.
+  - injection H as _ <-. rewrite Hu. apply with_tpls_same.
+Qed.
+
+(* finalize returns the (name, descriptor) pairs it was given, with recomputed derived fields *)
+Lemma finalize_src_sources ev sufs m tm comps :
+  finalize_src ev sufs m = Ok (tm, comps) -> sources tm = m.
+Proof.
+  unfold finalize_src. intros H.
+  destruct (first_loop ev m m [] [] []) as [[[par sz] tab]|]; [|discriminate].
+  destruct (if ev_fix_d10 ev then _ else _); [|discriminate].
+  destruct (negb _); [discriminate|].
+  destruct (_ && _); [discriminate|].
+  injection H as <- _. unfold sources. rewrite map_map. simpl.
+  rewrite <- (map_id m) at 2. apply map_ext. intros [k v]. reflexivity.
+Qed.
+
+(* the autoescape suffixes only enter through the e_auto field *)
+Lemma finalize_src_sufs ev sufs sufs' m :
+  finalize_src ev sufs' m =
+  match finalize_src ev sufs m with
+  | Ok (tm, c) => Ok (set_auto sufs' tm, c)
+  | Err e => Err e
+  end.
+Proof.
+  unfold finalize_src.
+  destruct (first_loop ev m m [] [] []) as [[[par sz] tab]|]; [|reflexivity].
+  destruct (if ev_fix_d10 ev then _ else _); [|reflexivity].
+  destruct (negb _); [reflexivity|].
+  destruct (_ && _); [reflexivity|].
+  f_equal. f_equal. unfold set_auto. rewrite map_map. apply map_ext. intros [k v]. reflexivity.
+Qed.
+
+Lemma sources_set_auto sufs m : sources (set_auto sufs m) = sources m.
+Proof. unfold sources, set_auto. rewrite map_map. apply map_ext. intros [k v]. reflexivity. Qed.
+
+Lemma set_auto_sorted sufs m : msorted (set_auto sufs m) <-> msorted m.
+Proof. unfold set_auto. apply (msorted_map_snd (fun ne => _)). Qed.
+
+(* the invariant: every field of the instance is the function `finalize` of the current
+   (name, descriptor) set, the configuration and the current suffixes *)
+Definition canonical (ev : env) (s : state) : Prop :=
+  msorted (st_tpls s) /\ finalize ev s = Ok s.
+
+Lemma canonical_init ev sufs : canonical ev (init sufs).
+Proof.
+  split; [exact I|]. unfold finalize, finalize_src, init. simpl.
+  destruct (ev_fix_d10 ev); destruct (ev_fix_d13 ev); reflexivity.
+Qed.
+
+Lemma add_ok_canonical ev s b s' :
+  msorted (st_tpls s) -> add_batch ev s b = (Ok tt, s') -> canonical ev s'.
+Proof.
+  intros Hs H. unfold add_batch in H.
+  destruct (insert_all (st_tpls s) b []) as [[ok m1] log] eqn:E.
+  destruct (insert_all_undo _ _ _ _ _ _ Hs E) as [_ Hs1].
+  destruct ok; [|discriminate].
+  destruct (finalize ev (with_tpls s m1)) as [s1|] eqn:F; [|discriminate].
+  injection H as <-. unfold finalize in F. simpl in F.
+  destruct (finalize_src ev (st_sufs s) (sources m1)) as [[tm comps]|] eqn:G; [|discriminate].
+  injection F as <-. pose proof (finalize_src_sources _ _ _ _ _ G) as Hsrc.
+  split; simpl.
+  - apply sources_sorted. rewrite Hsrc. apply sources_sorted. exact Hs1.
+  - unfold finalize. simpl. rewrite Hsrc, G. reflexivity.
+Qed.
+
+Lemma autoescape_canonical ev s sufs : canonical ev s -> canonical ev (autoescape_on s sufs).
+Proof.
+  intros [Hs Hf]. split; simpl.
+  - apply set_auto_sorted. exact Hs.
+  - unfold finalize in *. simpl. rewrite sources_set_auto.
+    rewrite (finalize_src_sufs ev (st_sufs s) sufs).
+    destruct (finalize_src ev (st_sufs s) (sources (st_tpls s))) as [[tm c]|]; [|discriminate].
+    injection Hf as Hf. rewrite <- Hf. simpl. reflexivity.
+Qed.
+
+Inductive reachable (ev : env) : state -> Prop :=
+| rch_init : forall sufs, reachable ev (init sufs)
+| rch_step : forall s c, reachable ev s -> reachable ev (snd (step ev s c)).
+
+(* induction over arbitrary histories: successful adds, failing adds of every kind (the
+   error path is the same for all of them), autoescape_on *)
+Theorem reachable_inv ev s : reachable ev s -> canonical ev s.
+Proof.
+  induction 1 as [sufs | s c Hr IH].
+  - apply canonical_init.
+  - destruct c as [b|sufs]; simpl.
+    + destruct (add_batch ev s b) as [[[]|e] s'] eqn:E; simpl.
+      * eapply add_ok_canonical; eauto. apply IH.
+      * apply add_err_is_identity in E; [|apply IH]. subst. exact IH.
+    + apply autoescape_canonical. exact IH.
+Qed.
+
+(* the (name, source) set a batch leaves behind *)
+Definition override (m : smap) (b : list (name * source)) : smap :=
+  fold_left (fun m p => match snd p with Some t => minsert (fst p) t m | None => m end) b m.
+
+Lemma insert_all_sources b : forall m log m1 log1,
+  insert_all m b log = (true, m1, log1) -> sources m1 = override (sources m) b.
+Proof.
+  induction b as [|[n [t|]] b IH]; intros m log m1 log1 H; simpl in H.
+  - injection H as <- _. reflexivity.
+  - apply IH in H. rewrite H. simpl. rewrite sources_minsert. reflexivity.
+  - discriminate.
+Qed.
+
+(* a successful add leaves exactly the state that a fresh instance reaches when it is given
+   the resulting (name, source) set in ONE batch b' -- in any order, with or without
+   repetitions, as long as b' describes that set *)
+Theorem add_ok_equals_fresh ev s b s' :
+  msorted (st_tpls s) -> add_batch ev s b = (Ok tt, s') ->
+  sources (st_tpls s') = override (sources (st_tpls s)) b /\
+  forall b' m' log',
+    insert_all [] b' [] = (true, m', log') -> sources m' = sources (st_tpls s') ->
+    add_batch ev (init (st_sufs s)) b' = (Ok tt, s').
+Proof.
+  intros Hs H. pose proof (add_ok_canonical _ _ _ _ Hs H) as [Hs' Hf'].
+  assert (st_sufs s' = st_sufs s) as Hsufs.
+  { unfold add_batch in H. destruct (insert_all (st_tpls s) b []) as [[ok m1] log].
+    destruct ok; [|discriminate]. destruct (finalize ev (with_tpls s m1)) as [s1|] eqn:F; [|discriminate].
+    injection H as <-. unfold finalize in F. simpl in F.
+    destruct (finalize_src _ _ _) as [[tm c]|]; [|discriminate]. injection F as <-. reflexivity. }
+  split.
+  - unfold add_batch in H. destruct (insert_all (st_tpls s) b []) as [[ok m1] log] eqn:E.
+    destruct ok; [|discriminate]. destruct (finalize ev (with_tpls s m1)) as [s1|] eqn:F; [|discriminate].
+    injection H as <-. unfold finalize in F. simpl in F.
+    destruct (finalize_src _ _ _) as [[tm c]|] eqn:G; [|discriminate]. injection F as <-. simpl.
+    rewrite (finalize_src_sources _ _ _ _ _ G). eapply insert_all_sources; eauto.
+  - intros b' m' log' E Hsrc. unfold add_batch. simpl. rewrite E.
+    unfold finalize in *. simpl. rewrite Hsrc, <- Hsufs.
+    destruct (finalize_src ev (st_sufs s') (sources (st_tpls s'))) as [[tm c]|]; [|discriminate].
+    injection Hf' as Hf'. rewrite <- Hf'. reflexivity.
+Qed.
+
+Lemma run_reachable ev h : forall s, reachable ev s -> reachable ev (snd (run ev s h)).
+Proof.
+  induction h as [|c h IH]; intros s Hr; simpl; auto.
+  destruct (step ev s c) as [r s1] eqn:E.
+  specialize (IH s1). destruct (run ev s1 h) as [rs s2] eqn:E2. simpl in *.
+  apply IH. replace s1 with (snd (step ev s c)) by (rewrite E; reflexivity).
+  constructor. exact Hr.
+Qed.
+
+(* observable behaviour is a function of the state; two histories of any shape -- any order,
+   any grouping into batches, any failed attempts and replacements in between -- that end with
+   the same (name, source) set and the same suffixes end in the SAME state *)
+Theorem order_and_grouping_irrelevant ev sufs1 sufs2 h1 h2 :
+  let s1 := snd (run ev (init sufs1) h1) in
+  let s2 := snd (run ev (init sufs2) h2) in
+  st_sufs s1 = st_sufs s2 -> sources (st_tpls s1) = sources (st_tpls s2) -> s1 = s2.
+Proof.
+  intros s1 s2 Hsufs Hsrc.
+  assert (canonical ev s1) as [_ F1] by (apply reachable_inv, run_reachable, rch_init).
+  assert (canonical ev s2) as [_ F2] by (apply reachable_inv, run_reachable, rch_init).
+  unfold finalize in F1, F2. rewrite Hsufs, Hsrc in F1. rewrite F1 in F2. congruence.
+Qed.
+
+(* the sorted listing of a set is one batch that describes it *)
+Definition listing (m : smap) : list (name * source) := map (fun nt => (fst nt, Some (snd nt))) m.
+
+Lemma minsert_last {V} k (v : V) m :
+  (forall k', In k' (mkeys m) -> name_cmp k' k = Lt) -> minsert k v m = m ++ [(k, v)].
+Proof.
+  induction m as [|[k1 v1] m IH]; intros H; simpl; auto.
+  assert (name_cmp k k1 = Gt) as ->.
+  { rewrite name_cmp_antisym, (H k1); simpl; auto. }
+  f_equal. apply IH. intros k' Hk'. apply H. simpl. auto.
+Qed.
+
+Lemma msorted_app_below {V} (acc : fmap V) k v m :
+  msorted (acc ++ (k, v) :: m) -> forall k', In k' (mkeys acc) -> name_cmp k' k = Lt.
+Proof.
+  induction acc as [|[a b] acc IH]; intros Hs k' Hin; [destruct Hin|].
+  simpl in Hin. destruct Hin as [<-|Hin].
+  - apply (msorted_above a b (acc ++ (k, v) :: m) Hs).
+    unfold mkeys. rewrite map_app. apply in_or_app. right. simpl. auto.
+  - apply IH; auto. eapply msorted_tail. exact Hs.
+Qed.
+
+Lemma override_listing m : forall acc, msorted (acc ++ m) -> override acc (listing m) = acc ++ m.
+Proof.
+  induction m as [|[k t] m IH]; intros acc Hs; simpl.
+  - rewrite app_nil_r. reflexivity.
+  - rewrite minsert_last by (eapply msorted_app_below; eauto).
+    change (override (acc ++ [(k, t)]) (listing m) = acc ++ (k, t) :: m).
+    rewrite IH; rewrite <- app_assoc; simpl; auto.
+Qed.
